@@ -302,10 +302,13 @@ def named_logical_family(run):
     import decimal as _dec
     money = {"type": "fixed", "name": "bank.Money", "size": 8, "logicalType": "decimal", "precision": 12, "scale": 2}
     rate = {"type": "record", "name": "bank.Rate", "fields": [{"name": "per", "type": "bank.Money"}, {"name": "unit", "type": "string"}]}
-    for variant in ("fields", "with-record"):
+    for variant in ("single-use", "fields", "with-record"):
         flds = [{"name": "id", "type": "long"}, {"name": "balance", "type": "bank.Money"}, {"name": "history", "type": {"type": "array", "items": "bank.Money"}},
                 {"name": "maybe", "type": ["null", "bank.Money"], "default": None}]
         datum = {"id": 1, "balance": _dec.Decimal("12.34"), "history": [_dec.Decimal("0.01"), _dec.Decimal("-5.00")], "maybe": _dec.Decimal("7.00")}
+        if variant == "single-use":
+            # (the raw schema then holds the definition only, no by-name use at all)
+            flds, datum = flds[:2], {"id": 1, "balance": _dec.Decimal("12.34")}
         pieces = [money]
         if variant == "with-record":
             flds.append({"name": "rate", "type": "bank.Rate"})
